@@ -11,157 +11,157 @@ import (
 
 // CSSValues maps properties to candidate values (valid, boundary and invalid ones mixed).
 var CSSValues = map[string][]string{
-	"display":               {"block", "inline", "inline-block", "none", "table", "inline-table", "table-row", "table-cell", "table-row-group", "table-header-group", "table-footer-group", "table-column", "table-column-group", "table-caption", "list-item", "flex", "inline-flex", "grid", "inline-grid", "flow-root", "contents", "run-in", "block flow", "inline flow-root"},
-	"position":              {"static", "relative", "absolute", "fixed", "running(hdr)", "sticky"},
-	"float":                 {"left", "right", "none", "footnote"},
-	"clear":                 {"left", "right", "both", "none"},
-	"width":                 {"auto", "0", "1px", "50px", "120px", "50%", "100%", "150%", "10em", "-5px", "3e5px", "min-content", "max-content", "fit-content", "calc(100% - 10px)"},
-	"height":                {"auto", "0", "1px", "30px", "200px", "50%", "100%", "2000px"},
-	"min-width":             {"0", "10px", "50%", "200px", "auto"},
-	"max-width":             {"none", "0", "10px", "50%", "200px"},
-	"min-height":            {"0", "10px", "50%", "300px"},
-	"max-height":            {"none", "0", "10px", "50%"},
-	"margin":                {"0", "auto", "5px", "-5px", "10px 20px", "1em 2em 3em", "10% 5%", "0 auto", "-50px", "1e6px"},
-	"margin-top":            {"0", "10px", "-10px", "auto", "50%"},
-	"margin-left":           {"0", "10px", "-30px", "auto", "50%"},
-	"padding":               {"0", "5px", "1em", "10%", "3px 6px", "-1px"},
-	"border":                {"none", "1px solid black", "3px dashed red", "thick double", "0 solid", "5px dotted #00f", "2px groove", "medium ridge green", "1px inset", "1px outset", "10px hidden"},
-	"border-width":          {"0", "1px", "thin", "medium", "thick", "1px 2px 3px 4px", "20px"},
-	"border-style":          {"none", "solid", "dashed", "dotted", "double", "groove", "ridge", "inset", "outset", "hidden", "solid dashed"},
-	"border-radius":         {"0", "5px", "50%", "10px 20px", "10px / 20px", "1e4px", "5px 10px 15px 20px / 1px 2px"},
-	"border-collapse":       {"collapse", "separate"},
-	"border-spacing":        {"0", "2px", "5px 10px"},
-	"border-image":          {"none", "linear-gradient(red, blue) 10", "url(mem://doc/missing.png) 3 stretch"},
-	"box-sizing":            {"content-box", "border-box"},
-	"box-decoration-break":  {"slice", "clone"},
-	"outline":               {"none", "1px solid red", "3px dotted", "thick double green"},
-	"outline-offset":        {"0", "3px", "-3px"},
-	"color":                 {"red", "#123", "rgb(1,2,3)", "rgba(0,0,0,.5)", "transparent", "currentColor", "hsl(120,50%,50%)", "notacolor"},
-	"background":            {"none", "red", "#0f0 url(mem://doc/missing.png)", "linear-gradient(red, blue)", "radial-gradient(circle, red, blue 50%)", "repeating-linear-gradient(45deg, red 0, blue 10px)", "url(data:image/svg+xml,%3Csvg%20xmlns='http://www.w3.org/2000/svg'%20width='4'%20height='4'%3E%3Crect%20width='2'%20height='2'/%3E%3C/svg%3E) repeat", "linear-gradient(red, blue) 0 0 / 10px 10px space", "linear-gradient(red,blue) center / 0 0", "linear-gradient(red,blue) 0 0 / 60px 20px space round", "red, blue"},
-	"background-color":      {"transparent", "yellow", "#abcdef", "rgba(255,0,0,.3)"},
-	"background-size":       {"auto", "cover", "contain", "0 0", "10px", "50% 50%", "100% auto"},
-	"background-repeat":     {"repeat", "no-repeat", "space", "round", "repeat-x", "space round"},
-	"background-position":   {"0 0", "center", "right 3px bottom 5px", "50% 50%", "-10px 1em"},
-	"background-clip":       {"border-box", "padding-box", "content-box"},
-	"background-origin":     {"border-box", "padding-box", "content-box"},
-	"background-attachment": {"scroll", "fixed", "local"},
-	"opacity":               {"1", "0", "0.5", "-1", "2"},
-	"visibility":            {"visible", "hidden", "collapse"},
-	"overflow":              {"visible", "hidden", "scroll", "auto", "clip"},
-	"z-index":               {"auto", "0", "1", "-1", "999999", "1.5"},
-	"top":                   {"auto", "0", "10px", "-10px", "50%"},
-	"left":                  {"auto", "0", "10px", "-10px", "50%"},
-	"right":                 {"auto", "0", "10px"},
-	"bottom":                {"auto", "0", "10px"},
-	"transform":             {"none", "rotate(45deg)", "rotate(0deg)", "scale(2)", "scale(0)", "translate(10px, 50%)", "skew(10deg, 20deg)", "skewX(30deg)", "matrix(1,0,0,1,10,10)", "matrix(0,0,0,0,0,0)", "rotate(1turn) scale(.5) translateX(1em)", "rotate(90)", "scale(1e30)"},
-	"transform-origin":      {"center", "0 0", "left top", "100% 100%", "10px 20px", "right"},
-	"font":                  {"20px Ahem", "10px/1 Ahem", "bold 12px weasyprint", "italic small-caps 1em/1.5 serif", "16px", "caption", "0 Ahem", "1000px Ahem"},
-	"font-family":           {"Ahem", "weasyprint", "serif", "sans-serif", "monospace", "nonexistent, Ahem", "\"\""},
-	"font-size":             {"0", "1px", "10px", "16px", "2em", "50%", "larger", "smaller", "xx-large", "300px", "-1px", "1e5px"},
-	"font-weight":           {"normal", "bold", "bolder", "lighter", "100", "900", "1000", "0"},
-	"font-style":            {"normal", "italic", "oblique"},
-	"font-variant":          {"normal", "small-caps", "oldstyle-nums", "common-ligatures small-caps"},
-	"font-stretch":          {"normal", "condensed", "expanded", "50%"},
-	"font-feature-settings": {"normal", "\"liga\" 0", "\"smcp\"", "\"xxxx\" 3"},
-	"font-kerning":          {"auto", "none", "normal"},
-	"line-height":           {"normal", "1", "0", "1.5", "20px", "200%", "-1", "1000"},
-	"vertical-align":        {"baseline", "top", "middle", "bottom", "sub", "super", "text-top", "text-bottom", "10px", "-50%"},
-	"text-align":            {"left", "right", "center", "justify", "start", "end"},
-	"text-align-last":       {"auto", "justify", "center"},
-	"text-indent":           {"0", "2em", "-2em", "50%", "1e5px"},
-	"text-transform":        {"none", "uppercase", "lowercase", "capitalize", "full-width"},
-	"text-decoration":       {"none", "underline", "overline line-through", "underline wavy red", "underline dotted"},
-	"text-overflow":         {"clip", "ellipsis"},
-	"white-space":           {"normal", "nowrap", "pre", "pre-wrap", "pre-line", "break-spaces"},
-	"word-break":            {"normal", "break-all", "keep-all"},
-	"overflow-wrap":         {"normal", "break-word", "anywhere"},
-	"word-spacing":          {"normal", "5px", "-5px", "1em"},
-	"letter-spacing":        {"normal", "2px", "-2px", "1em"},
-	"hyphens":               {"none", "manual", "auto"},
-	"hyphenate-character":   {"auto", "\"!\"", "\"\""},
-	"hyphenate-limit-chars": {"auto", "3", "5 2 2", "1 1 1"},
-	"hyphenate-limit-zone":  {"0", "10px", "50%"},
-	"tab-size":              {"8", "0", "4", "20px"},
-	"direction":             {"ltr", "rtl"},
-	"unicode-bidi":          {"normal", "embed", "bidi-override", "isolate"},
-	"list-style":            {"disc", "none", "decimal inside", "square outside", "upper-roman", "lower-greek", "\"*\"", "symbols(cyclic \"a\" \"b\")", "symbols(numeric)", "myst", "url(mem://doc/missing.png)", "hebrew", "cjk-decimal", "armenian", "georgian", "lower-alpha"},
-	"list-style-type":       {"disc", "circle", "decimal", "decimal-leading-zero", "lower-roman", "upper-alpha", "none", "myst", "cyc", "add", "fix", "symbols(symbolic \"x\")", "symbols(alphabetic \"a\")", "symbols(additive)", "disclosure-open"},
-	"list-style-position":   {"inside", "outside"},
-	"counter-reset":         {"none", "c", "c 5", "c -3 d 2", "list-item 0", "page 3"},
-	"counter-increment":     {"none", "c", "c 2", "c -1", "list-item 0", "d 1000000000"},
-	"counter-set":           {"none", "c 7", "d -2"},
-	"content":               {"normal", "none", "\"x\"", "counter(c)", "counters(c, \".\")", "counter(c, upper-roman) \" - \" counter(d, myst)", "counter(c, cyc) counter(c, add) counter(c, fix)", "attr(title)", "open-quote \"q\" close-quote", "url(mem://doc/missing.png)", "string(hd)", "element(hdr)", "target-counter(attr(href), page)", "target-text(attr(href))", "leader(\".\")", "counter(page) \"/\" counter(pages)", "counter(c, symbols(cyclic))", "\"\\A\""},
-	"quotes":                {"auto", "none", "\"<\" \">\"", "\"a\" \"b\" \"c\" \"d\""},
-	"string-set":            {"none", "hd content()", "hd content(text) \"x\"", "hd attr(title)"},
-	"bookmark-level":        {"none", "1", "2", "6", "0", "100"},
-	"bookmark-label":        {"content(text)", "\"L\"", "content(before)", "attr(title)"},
-	"bookmark-state":        {"open", "closed"},
-	"table-layout":          {"auto", "fixed"},
-	"caption-side":          {"top", "bottom"},
-	"empty-cells":           {"show", "hide"},
-	"columns":               {"auto", "2", "3 50px", "100px", "1000", "0"},
-	"column-gap":            {"normal", "0", "10px", "50%"},
-	"column-rule":           {"none", "1px solid", "5px dotted red"},
-	"column-fill":           {"balance", "auto"},
-	"column-span":           {"none", "all"},
-	"break-before":          {"auto", "page", "left", "right", "recto", "verso", "avoid", "avoid-page", "column", "always"},
-	"break-after":           {"auto", "page", "left", "right", "recto", "verso", "avoid", "column"},
-	"break-inside":          {"auto", "avoid", "avoid-page", "avoid-column"},
-	"page-break-before":     {"auto", "always", "avoid", "left", "right"},
-	"page-break-after":      {"auto", "always", "avoid"},
-	"page-break-inside":     {"auto", "avoid"},
-	"orphans":               {"1", "2", "5", "100", "0"},
-	"widows":                {"1", "2", "5", "100", "0"},
-	"page":                  {"auto", "pa", "pb"},
-	"flex":                  {"none", "1", "auto", "0 0 50px", "2 1 0%", "initial"},
-	"flex-direction":        {"row", "column", "row-reverse", "column-reverse"},
-	"flex-wrap":             {"nowrap", "wrap", "wrap-reverse"},
-	"flex-basis":            {"auto", "0", "50px", "50%", "content"},
-	"flex-grow":             {"0", "1", "1e9", "-1"},
-	"flex-shrink":           {"0", "1", "1e9"},
-	"order":                 {"0", "1", "-1", "2147483647"},
-	"justify-content":       {"flex-start", "center", "space-between", "space-around", "space-evenly", "flex-end", "stretch"},
-	"align-items":           {"stretch", "center", "flex-start", "flex-end", "baseline"},
-	"align-self":            {"auto", "center", "stretch", "baseline"},
-	"align-content":         {"normal", "center", "space-between", "stretch"},
-	"gap":                   {"0", "5px", "5px 10px", "10%"},
-	"grid-template-columns": {"none", "50px 50px", "1fr 2fr", "repeat(3, 1fr)", "repeat(auto-fill, 40px)", "minmax(10px, 1fr) auto", "[a] 10px [b] 1fr [c]", "subgrid", "repeat(1000, 1px)", "fit-content(50px)"},
-	"grid-template-rows":    {"none", "20px 20px", "auto 1fr", "repeat(2, 10px)", "min-content max-content"},
-	"grid-template-areas":   {"none", "\"a b\" \"c d\"", "\"a a\" \". b\"", "\"a\" \"a b\""},
-	"grid-auto-flow":        {"row", "column", "row dense", "dense"},
-	"grid-auto-columns":     {"auto", "20px", "1fr", "minmax(5px, 20px)"},
-	"grid-auto-rows":        {"auto", "20px", "1fr"},
-	"grid-column":           {"auto", "1", "1 / 3", "span 2", "2 / span 3", "a", "-1", "1 / -1", "100 / 200", "span 0"},
-	"grid-row":              {"auto", "1", "1 / 3", "span 2", "-2 / -1", "50"},
-	"grid-area":             {"auto", "a", "1 / 1 / 2 / 2", "b"},
-	"justify-items":         {"normal", "center", "stretch", "start", "legacy center"},
-	"justify-self":          {"auto", "center", "stretch", "end"},
-	"object-fit":            {"fill", "contain", "cover", "none", "scale-down"},
-	"object-position":       {"50% 50%", "left top", "10px 20px"},
-	"image-resolution":      {"1dppx", "from-image", "300dpi", "0dppx", "from-image 2dppx"},
-	"image-rendering":       {"auto", "pixelated", "crisp-edges"},
-	"image-orientation":     {"none", "from-image", "90deg", "90deg flip", "flip"},
-	"clip":                  {"auto", "rect(0, 10px, 10px, 0)", "rect(auto, auto, auto, auto)", "rect(10px 0 0 10px)"},
-	"size":                  {"auto", "A4", "A5 landscape", "100px 100px", "30px 20px", "1px 1px", "0 0", "10in", "letter portrait", "5000px 5000px"},
-	"marks":                 {"none", "crop", "cross", "crop cross"},
-	"bleed":                 {"auto", "0", "10px", "-5px"},
-	"footnote-display":      {"block", "inline", "compact"},
-	"footnote-policy":       {"auto", "line", "block"},
-	"anchor":                {"none", "attr(id)", "\"x\""},
-	"link":                  {"none", "attr(href)", "url(#a1)", "url(http://example.invalid/)"},
-	"lang":                  {"none", "\"fr\"", "attr(lang)"},
-	"max-lines":             {"none", "1", "2"},
-	"continue":              {"auto", "discard"},
-	"block-ellipsis":        {"none", "auto", "\"...\""},
-	"line-clamp":            {"none", "2", "2 \"…\""},
-	"mix-blend-mode":        {"normal", "multiply", "screen"},
-	"appearance":            {"none", "auto"},
+	"display":                   {"block", "inline", "inline-block", "none", "table", "inline-table", "table-row", "table-cell", "table-row-group", "table-header-group", "table-footer-group", "table-column", "table-column-group", "table-caption", "list-item", "flex", "inline-flex", "grid", "inline-grid", "flow-root", "contents", "run-in", "block flow", "inline flow-root"},
+	"position":                  {"static", "relative", "absolute", "fixed", "running(hdr)", "sticky"},
+	"float":                     {"left", "right", "none", "footnote"},
+	"clear":                     {"left", "right", "both", "none"},
+	"width":                     {"auto", "0", "1px", "50px", "120px", "50%", "100%", "150%", "10em", "-5px", "3e5px", "min-content", "max-content", "fit-content", "calc(100% - 10px)"},
+	"height":                    {"auto", "0", "1px", "30px", "200px", "50%", "100%", "2000px"},
+	"min-width":                 {"0", "10px", "50%", "200px", "auto"},
+	"max-width":                 {"none", "0", "10px", "50%", "200px"},
+	"min-height":                {"0", "10px", "50%", "300px"},
+	"max-height":                {"none", "0", "10px", "50%"},
+	"margin":                    {"0", "auto", "5px", "-5px", "10px 20px", "1em 2em 3em", "10% 5%", "0 auto", "-50px", "1e6px"},
+	"margin-top":                {"0", "10px", "-10px", "auto", "50%"},
+	"margin-left":               {"0", "10px", "-30px", "auto", "50%"},
+	"padding":                   {"0", "5px", "1em", "10%", "3px 6px", "-1px"},
+	"border":                    {"none", "1px solid black", "3px dashed red", "thick double", "0 solid", "5px dotted #00f", "2px groove", "medium ridge green", "1px inset", "1px outset", "10px hidden"},
+	"border-width":              {"0", "1px", "thin", "medium", "thick", "1px 2px 3px 4px", "20px"},
+	"border-style":              {"none", "solid", "dashed", "dotted", "double", "groove", "ridge", "inset", "outset", "hidden", "solid dashed"},
+	"border-radius":             {"0", "5px", "50%", "10px 20px", "10px / 20px", "1e4px", "5px 10px 15px 20px / 1px 2px"},
+	"border-collapse":           {"collapse", "separate"},
+	"border-spacing":            {"0", "2px", "5px 10px"},
+	"border-image":              {"none", "linear-gradient(red, blue) 10", "url(mem://doc/missing.png) 3 stretch"},
+	"box-sizing":                {"content-box", "border-box"},
+	"box-decoration-break":      {"slice", "clone"},
+	"outline":                   {"none", "1px solid red", "3px dotted", "thick double green"},
+	"outline-offset":            {"0", "3px", "-3px"},
+	"color":                     {"red", "#123", "rgb(1,2,3)", "rgba(0,0,0,.5)", "transparent", "currentColor", "hsl(120,50%,50%)", "notacolor"},
+	"background":                {"none", "red", "#0f0 url(mem://doc/missing.png)", "linear-gradient(red, blue)", "radial-gradient(circle, red, blue 50%)", "repeating-linear-gradient(45deg, red 0, blue 10px)", "url(data:image/svg+xml,%3Csvg%20xmlns='http://www.w3.org/2000/svg'%20width='4'%20height='4'%3E%3Crect%20width='2'%20height='2'/%3E%3C/svg%3E) repeat", "linear-gradient(red, blue) 0 0 / 10px 10px space", "linear-gradient(red,blue) center / 0 0", "linear-gradient(red,blue) 0 0 / 60px 20px space round", "red, blue"},
+	"background-color":          {"transparent", "yellow", "#abcdef", "rgba(255,0,0,.3)"},
+	"background-size":           {"auto", "cover", "contain", "0 0", "10px", "50% 50%", "100% auto"},
+	"background-repeat":         {"repeat", "no-repeat", "space", "round", "repeat-x", "space round"},
+	"background-position":       {"0 0", "center", "right 3px bottom 5px", "50% 50%", "-10px 1em"},
+	"background-clip":           {"border-box", "padding-box", "content-box"},
+	"background-origin":         {"border-box", "padding-box", "content-box"},
+	"background-attachment":     {"scroll", "fixed", "local"},
+	"opacity":                   {"1", "0", "0.5", "-1", "2"},
+	"visibility":                {"visible", "hidden", "collapse"},
+	"overflow":                  {"visible", "hidden", "scroll", "auto", "clip"},
+	"z-index":                   {"auto", "0", "1", "-1", "999999", "1.5"},
+	"top":                       {"auto", "0", "10px", "-10px", "50%"},
+	"left":                      {"auto", "0", "10px", "-10px", "50%"},
+	"right":                     {"auto", "0", "10px"},
+	"bottom":                    {"auto", "0", "10px"},
+	"transform":                 {"none", "rotate(45deg)", "rotate(0deg)", "scale(2)", "scale(0)", "translate(10px, 50%)", "skew(10deg, 20deg)", "skewX(30deg)", "matrix(1,0,0,1,10,10)", "matrix(0,0,0,0,0,0)", "rotate(1turn) scale(.5) translateX(1em)", "rotate(90)", "scale(1e30)"},
+	"transform-origin":          {"center", "0 0", "left top", "100% 100%", "10px 20px", "right"},
+	"font":                      {"20px Ahem", "10px/1 Ahem", "bold 12px weasyprint", "italic small-caps 1em/1.5 serif", "16px", "caption", "0 Ahem", "1000px Ahem"},
+	"font-family":               {"Ahem", "weasyprint", "serif", "sans-serif", "monospace", "nonexistent, Ahem", "\"\""},
+	"font-size":                 {"0", "1px", "10px", "16px", "2em", "50%", "larger", "smaller", "xx-large", "300px", "-1px", "1e5px"},
+	"font-weight":               {"normal", "bold", "bolder", "lighter", "100", "900", "1000", "0"},
+	"font-style":                {"normal", "italic", "oblique"},
+	"font-variant":              {"normal", "small-caps", "oldstyle-nums", "common-ligatures small-caps"},
+	"font-stretch":              {"normal", "condensed", "expanded", "50%"},
+	"font-feature-settings":     {"normal", "\"liga\" 0", "\"smcp\"", "\"xxxx\" 3"},
+	"font-kerning":              {"auto", "none", "normal"},
+	"line-height":               {"normal", "1", "0", "1.5", "20px", "200%", "-1", "1000"},
+	"vertical-align":            {"baseline", "top", "middle", "bottom", "sub", "super", "text-top", "text-bottom", "10px", "-50%"},
+	"text-align":                {"left", "right", "center", "justify", "start", "end"},
+	"text-align-last":           {"auto", "justify", "center"},
+	"text-indent":               {"0", "2em", "-2em", "50%", "1e5px"},
+	"text-transform":            {"none", "uppercase", "lowercase", "capitalize", "full-width"},
+	"text-decoration":           {"none", "underline", "overline line-through", "underline wavy red", "underline dotted"},
+	"text-overflow":             {"clip", "ellipsis"},
+	"white-space":               {"normal", "nowrap", "pre", "pre-wrap", "pre-line", "break-spaces"},
+	"word-break":                {"normal", "break-all", "keep-all"},
+	"overflow-wrap":             {"normal", "break-word", "anywhere"},
+	"word-spacing":              {"normal", "5px", "-5px", "1em"},
+	"letter-spacing":            {"normal", "2px", "-2px", "1em"},
+	"hyphens":                   {"none", "manual", "auto"},
+	"hyphenate-character":       {"auto", "\"!\"", "\"\""},
+	"hyphenate-limit-chars":     {"auto", "3", "5 2 2", "1 1 1"},
+	"hyphenate-limit-zone":      {"0", "10px", "50%"},
+	"tab-size":                  {"8", "0", "4", "20px"},
+	"direction":                 {"ltr", "rtl"},
+	"unicode-bidi":              {"normal", "embed", "bidi-override", "isolate"},
+	"list-style":                {"disc", "none", "decimal inside", "square outside", "upper-roman", "lower-greek", "\"*\"", "symbols(cyclic \"a\" \"b\")", "symbols(numeric)", "myst", "url(mem://doc/missing.png)", "hebrew", "cjk-decimal", "armenian", "georgian", "lower-alpha"},
+	"list-style-type":           {"disc", "circle", "decimal", "decimal-leading-zero", "lower-roman", "upper-alpha", "none", "myst", "cyc", "add", "fix", "symbols(symbolic \"x\")", "symbols(alphabetic \"a\")", "symbols(additive)", "disclosure-open"},
+	"list-style-position":       {"inside", "outside"},
+	"counter-reset":             {"none", "c", "c 5", "c -3 d 2", "list-item 0", "page 3"},
+	"counter-increment":         {"none", "c", "c 2", "c -1", "list-item 0", "d 1000000000"},
+	"counter-set":               {"none", "c 7", "d -2"},
+	"content":                   {"normal", "none", "\"x\"", "counter(c)", "counters(c, \".\")", "counter(c, upper-roman) \" - \" counter(d, myst)", "counter(c, cyc) counter(c, add) counter(c, fix)", "attr(title)", "open-quote \"q\" close-quote", "url(mem://doc/missing.png)", "string(hd)", "element(hdr)", "target-counter(attr(href), page)", "target-text(attr(href))", "leader(\".\")", "counter(page) \"/\" counter(pages)", "counter(c, symbols(cyclic))", "\"\\A\""},
+	"quotes":                    {"auto", "none", "\"<\" \">\"", "\"a\" \"b\" \"c\" \"d\""},
+	"string-set":                {"none", "hd content()", "hd content(text) \"x\"", "hd attr(title)"},
+	"bookmark-level":            {"none", "1", "2", "6", "0", "100"},
+	"bookmark-label":            {"content(text)", "\"L\"", "content(before)", "attr(title)"},
+	"bookmark-state":            {"open", "closed"},
+	"table-layout":              {"auto", "fixed"},
+	"caption-side":              {"top", "bottom"},
+	"empty-cells":               {"show", "hide"},
+	"columns":                   {"auto", "2", "3 50px", "100px", "1000", "0"},
+	"column-gap":                {"normal", "0", "10px", "50%"},
+	"column-rule":               {"none", "1px solid", "5px dotted red"},
+	"column-fill":               {"balance", "auto"},
+	"column-span":               {"none", "all"},
+	"break-before":              {"auto", "page", "left", "right", "recto", "verso", "avoid", "avoid-page", "column", "always"},
+	"break-after":               {"auto", "page", "left", "right", "recto", "verso", "avoid", "column"},
+	"break-inside":              {"auto", "avoid", "avoid-page", "avoid-column"},
+	"page-break-before":         {"auto", "always", "avoid", "left", "right"},
+	"page-break-after":          {"auto", "always", "avoid"},
+	"page-break-inside":         {"auto", "avoid"},
+	"orphans":                   {"1", "2", "5", "100", "0"},
+	"widows":                    {"1", "2", "5", "100", "0"},
+	"page":                      {"auto", "pa", "pb"},
+	"flex":                      {"none", "1", "auto", "0 0 50px", "2 1 0%", "initial"},
+	"flex-direction":            {"row", "column", "row-reverse", "column-reverse"},
+	"flex-wrap":                 {"nowrap", "wrap", "wrap-reverse"},
+	"flex-basis":                {"auto", "0", "50px", "50%", "content"},
+	"flex-grow":                 {"0", "1", "1e9", "-1"},
+	"flex-shrink":               {"0", "1", "1e9"},
+	"order":                     {"0", "1", "-1", "2147483647"},
+	"justify-content":           {"flex-start", "center", "space-between", "space-around", "space-evenly", "flex-end", "stretch"},
+	"align-items":               {"stretch", "center", "flex-start", "flex-end", "baseline"},
+	"align-self":                {"auto", "center", "stretch", "baseline"},
+	"align-content":             {"normal", "center", "space-between", "stretch"},
+	"gap":                       {"0", "5px", "5px 10px", "10%"},
+	"grid-template-columns":     {"none", "50px 50px", "1fr 2fr", "repeat(3, 1fr)", "repeat(auto-fill, 40px)", "minmax(10px, 1fr) auto", "[a] 10px [b] 1fr [c]", "subgrid", "repeat(1000, 1px)", "fit-content(50px)"},
+	"grid-template-rows":        {"none", "20px 20px", "auto 1fr", "repeat(2, 10px)", "min-content max-content"},
+	"grid-template-areas":       {"none", "\"a b\" \"c d\"", "\"a a\" \". b\"", "\"a\" \"a b\""},
+	"grid-auto-flow":            {"row", "column", "row dense", "dense"},
+	"grid-auto-columns":         {"auto", "20px", "1fr", "minmax(5px, 20px)"},
+	"grid-auto-rows":            {"auto", "20px", "1fr"},
+	"grid-column":               {"auto", "1", "1 / 3", "span 2", "2 / span 3", "a", "-1", "1 / -1", "100 / 200", "span 0"},
+	"grid-row":                  {"auto", "1", "1 / 3", "span 2", "-2 / -1", "50"},
+	"grid-area":                 {"auto", "a", "1 / 1 / 2 / 2", "b"},
+	"justify-items":             {"normal", "center", "stretch", "start", "legacy center"},
+	"justify-self":              {"auto", "center", "stretch", "end"},
+	"object-fit":                {"fill", "contain", "cover", "none", "scale-down"},
+	"object-position":           {"50% 50%", "left top", "10px 20px"},
+	"image-resolution":          {"1dppx", "from-image", "300dpi", "0dppx", "from-image 2dppx"},
+	"image-rendering":           {"auto", "pixelated", "crisp-edges"},
+	"image-orientation":         {"none", "from-image", "90deg", "90deg flip", "flip"},
+	"clip":                      {"auto", "rect(0, 10px, 10px, 0)", "rect(auto, auto, auto, auto)", "rect(10px 0 0 10px)"},
+	"size":                      {"auto", "A4", "A5 landscape", "100px 100px", "30px 20px", "1px 1px", "0 0", "10in", "letter portrait", "5000px 5000px"},
+	"marks":                     {"none", "crop", "cross", "crop cross"},
+	"bleed":                     {"auto", "0", "10px", "-5px"},
+	"footnote-display":          {"block", "inline", "compact"},
+	"footnote-policy":           {"auto", "line", "block"},
+	"anchor":                    {"none", "attr(id)", "\"x\""},
+	"link":                      {"none", "attr(href)", "url(#a1)", "url(http://example.invalid/)"},
+	"lang":                      {"none", "\"fr\"", "attr(lang)"},
+	"max-lines":                 {"none", "1", "2"},
+	"continue":                  {"auto", "discard"},
+	"block-ellipsis":            {"none", "auto", "\"...\""},
+	"line-clamp":                {"none", "2", "2 \"…\""},
+	"mix-blend-mode":            {"normal", "multiply", "screen"},
+	"appearance":                {"none", "auto"},
 	"text-decoration-thickness": {"auto", "from-font", "2px", "10%"},
-	"text-underline-offset": {"auto", "2px", "-1em"},
-	"-weasy-x":              {"1"},
-	"--v":                   {"10px", "red", "var(--w)", "var(--v)", "{a:b}", "", " ", "1px solid var(--c, blue)", "calc(1px + var(--w, 2px))"},
-	"--w":                   {"var(--v)", "5", "var(--x, var(--v))"},
-	"bogus-property":        {"1", "x y z"},
+	"text-underline-offset":     {"auto", "2px", "-1em"},
+	"-weasy-x":                  {"1"},
+	"--v":                       {"10px", "red", "var(--w)", "var(--v)", "{a:b}", "", " ", "1px solid var(--c, blue)", "calc(1px + var(--w, 2px))"},
+	"--w":                       {"var(--v)", "5", "var(--x, var(--v))"},
+	"bogus-property":            {"1", "x y z"},
 }
 
 var cssProps []string
@@ -386,7 +386,7 @@ func (d *docState) attrs(tag string) string {
 	}
 	// presentational attributes
 	if r.Intn(8) == 0 {
-		a = append(a, Pick(r, []string{`width="`, `height="`, `border="`, `cellspacing="`, `cellpadding="`, `hspace="`, `vspace="`}) + num() + `"`)
+		a = append(a, Pick(r, []string{`width="`, `height="`, `border="`, `cellspacing="`, `cellpadding="`, `hspace="`, `vspace="`})+num()+`"`)
 	}
 	if r.Intn(12) == 0 {
 		a = append(a, Pick(r, []string{`align="center"`, `align="right"`, `align="bogus"`, `valign="middle"`, `bgcolor="#f00"`, `bgcolor="bogus"`, `background="mem://doc/missing.png"`, `nowrap`, `hidden`, `bordercolor="blue"`, `text="green"`, `link="blue"`}))
